@@ -9,7 +9,7 @@ polyhedron and a sphere of some radius.
 
 import numpy as np
 
-from .base_classes import Shape3D
+from .base_classes import Shape3D, _require_positive
 from .convex_polyhedron import ConvexPolyhedron
 from .utils import _hoomd_dict_mapping, _map_dict_keys
 
@@ -132,6 +132,7 @@ class ConvexSpheropolyhedron(Shape3D):
 
     @volume.setter
     def volume(self, value):
+        _require_positive(value, "Volume")
         scale = (value / self.volume) ** (1 / 3)
         self._rescale(scale)
 
